@@ -24,7 +24,7 @@ theorem subset_refl : ∀ (s : Shape), s.wf = true → isSubset s s = true
     cases o <;> simp [isSubset, zipAll_refl es h]
   | .object c o, h => by
     simp [Shape.wf] at h
-    have h1 : (c.all fun kv => mapContainsKey kv.1 c || kv.2.isOptional) = true := by
+    have h1 : (c.all fun kv => mapContainsKey kv.1 c || kv.2.isOptional || isOneOfNull kv.2) = true := by
       rw [List.all_eq_true]
       intro kv hkv
       have : mapContainsKey kv.1 c = true := mapContainsKey_iff.2 ⟨kv.2, hkv⟩
